@@ -6,7 +6,7 @@ CHECKS = {
              'providers, select the same RFC 7518 hash/scheme (PSS: sign salt = digest length, verify auto); the ECDSA DER <-> fixed-width '
              'r||s conversion ends r at ceil(bits/8) and s at twice that in a zeroed buffer for every ordering of the integer sizes '
              '(linear forms), the verifier splitting at the same width; the builder signs exactly the text it emits and the checker '
-             'authenticates exactly the text it parses; the builder\'s JSON setter is not more permissive than the checker\'s parser.',
+             'authenticates exactly the text it parses; the builder\'s JSON setter is not more permissive than the checker\'s parser. Every algorithm a provider can sign has an accepting path in the verifier of every provider that implements it; jwt_sign is handed exactly the length of the assembled text.',
         design_ref='DESIGN.md section 3 C05',
         note='NOT decided: that a token actually verifies (runtime crypto), JSON equality through jansson dump/load, the base64 round trip. '
              'A change that breaks round-tripping without breaking one of these conditions is not seen.',
@@ -18,7 +18,7 @@ CHECKS = {
              'part only for alg none); jwt_head_setup decision table (alg forced, typ defaulted on signed tokens only); iat/nbf/exp = '
              'time(NULL) [+ offset] under their bits with replace for all 8 masks; time_offset / enable_iat / defaults; per-token trees are '
              'deep copies and nothing reachable from generate writes the builder; private-key requirement and post-callback admission '
-             '(shared with C02).',
+             '(shared with C02). Buffer obligations in jwt_encode: every strcpy/strcat/sprintf writes at most the bytes allocated (linear forms over the encoder results), the signer gets exactly strlen of the text; no narrowing conversion of the clock or an offset on its way into a time claim.',
         design_ref='DESIGN.md section 3 C10',
         note='NOT decided: that jansson\'s dump is valid JSON and that base64 text decodes back; clock behaviour.',
         technique='string-provenance abstract interpretation + decision tables + effect analysis',
@@ -39,9 +39,9 @@ CHECKS = {
         text='Structural clauses: items linked only by list_add_tail(&item->node,&set->head) in jwks_item_add, unlinked only in __item_free, '
              'never freed inside a non-safe iteration; __item_free releases every owning field with its own family for oct and provider-made '
              'items under either current provider, unlinks before releasing and uses nothing afterwards; jwks_item_free_bad frees exactly '
-             'flagged items and returns the number freed (per-iteration relation); find_bykid returns exact matches of its argument only.',
+             'flagged items and returns the number freed (per-iteration relation); find_bykid returns exact matches of its argument only. Index lookups: an item leaves the walk only on a path where the position counter equals the never-narrowed index argument; the counter is 0 on entry and one higher after every iteration that goes round again (read off the interpreter\'s generic iteration). Releasing an item without any unlink site is a violation.',
         design_ref='DESIGN.md section 3 C16',
-        note='NOT decided: list semantics under arbitrary operation sequences, index arithmetic over the walk, heap-shape invariants of ll.h.',
+        note='NOT decided: list semantics under arbitrary operation sequences (the index walk is a per-iteration relation, not an induction), heap-shape invariants of ll.h.',
         technique='who-may-call rule + ownership typestate on the destructor + per-iteration counter relation',
     ),
     'C08': dict(
@@ -49,7 +49,7 @@ CHECKS = {
         text='Table and sibling agreement for the JWK importer: which member feeds which provider parameter is extracted from the '
              'importer\'s paths and compared with RFC 7518 6.3 / RFC 8037 and, as inverse, with the exporter in tools/key2jwk.c; every '
              'decoded buffer is consumed with the length produced by decoding that same buffer; each importer reads only member names of '
-             'its own key type; key_ops/use maps, oct bits = 8 x length, private detection, curve names.',
+             'its own key type; key_ops/use maps, oct bits = 8 x length, private detection, curve names. On every successful exit of each asymmetric importer item->bits is exactly what EVP_PKEY_get_size_t_param(pkey, "bits") reported.',
         design_ref='DESIGN.md section 3 C08',
         note='NOT decided: equality of the key numbers and the PEM round trip (numeric, inside OpenSSL).',
         technique='table extraction and sibling cross-check from abstract-interpreter paths and the AST',
@@ -70,7 +70,7 @@ CHECKS = {
         text='Sibling agreement of the provider ops tables (fully populated, unique, shared JWK import/free routines), per-algorithm '
              'hash/padding/salt selection of each provider\'s signer against RFC 7518 (verifiers: C01), the verdict gate per provider, and '
              'jwt_set_crypto_ops/_t/jwt_init evaluated concretely on the provider names, ids and 18 near misses: a provider is selected only '
-             'on an exact name/id and nothing is stored otherwise.',
+             'on an exact name/id and nothing is stored otherwise. Every algorithm a provider signs is accepted by the verifier of every provider that implements it.',
         design_ref='DESIGN.md section 3 C12',
         note='NOT decided: byte-identical tokens and cross-acceptance of signatures (runtime crypto).',
         technique='sibling/table agreement + concrete decision tables by abstract interpretation',
@@ -91,7 +91,7 @@ CHECKS = {
              'double release, use after release) on all paths of jwt_checker_verify through both providers with the checker fully '
              'symbolic (claim evaluation analysed as its own entry); every slice of the decoded signature handed to a crypto library '
              'lies inside it (linear reasoning); jwt_parse returns 0 only after two JSON documents decoded and a known string alg; the '
-             'call graph is acyclic and every loop has a recognised bounded shape.',
+             'call graph is acyclic and every loop has a recognised bounded shape. A loop whose continuing iteration changes nothing is a violation; every decode buffer handed to the JSON parser has a 0 stored at index == decoded length.',
         design_ref='DESIGN.md section 3 C06',
         note='NOT decided: out-of-bounds accesses inside the base64 loops and undefined behaviour in general (would need relational loop '
              'invariants; goto-analyzer intervals return UNKNOWN); leaks inside the crypto libraries. Fault model: allocations succeed (C17 '
@@ -118,7 +118,7 @@ CHECKS = {
              'channel (C14 exit obligations re-evaluated), no fallible result is discarded, and no library allocation bypasses the '
              'installed allocator. This is the property\'s "every index k" without a scenario list. One open finding (known_findings.txt): json_dumps of jansson 2.14 returns '
              'damaged text as success when an internal buffer growth fails; its call sites are reported through the API model and printed as '
-             'KNOWN-FINDING, which is why the level is not proof.',
+             'KNOWN-FINDING, which is why the level is not proof. verify/generate never report success on a path on which a routed allocation failed (jansson\'s documented NULL-container results are part of the model).',
         design_ref='DESIGN.md section 3 C17',
         note='Allocations made by OpenSSL/GnuTLS with their own allocators are outside jwt_set_alloc and outside the property. "Never '
              'accepts a token it would otherwise reject" is the verdict gate of C01, which quantifies over allocation outcomes. Leaks on '
@@ -131,7 +131,7 @@ CHECKS = {
              'parameters resolved): no function reachable from jwt_checker_verify / jwt_builder_generate stores to the stored '
              'configuration (struct jwt_common) or to any global/static. Path-sensitive dependence check with the object\'s previous '
              'error flag left symbolic: no branch and no returned value depends on it, and the callback edits a per-call local config. '
-             'With C14 (result <=> freshly copied flag, for clean and stale objects) a reused object behaves as a fresh one.',
+             'With C14 (result <=> freshly copied flag, for clean and stale objects) a reused object behaves as a fresh one. No branch on the way to a verdict (either provider, claim evaluation included) depends on a library call that reads thread or process history (OpenSSL error queue, errno, environment, RNG).',
         design_ref='DESIGN.md section 3 C13',
         note='Trusted: clang front end, engine, type-based effects (char* aliasing of typed objects other than the modelled '
              'memset/memcpy/strcpy/snprintf is not seen). Not decided: hidden state inside OpenSSL/GnuTLS/jansson.',
@@ -168,7 +168,7 @@ CHECKS = {
              'the boundary second is covered without sampling. Absent/wrong-type scenarios, iss/sub/aud (presence, string type, exact '
              'compare of the values of the same RFC name), defaults, time_leeway, claim_set/claim_del and the position of the claim '
              'checks in the policy (signed and unsigned) are enumerated as decision tables; token JSON is parsed without JSON_ALLOW_NUL '
-             'and JSON_DECODE_ANY.',
+             'and JSON_DECODE_ANY. No narrowing conversion of a claim value, the clock or the leeway on the way to the comparison.',
         design_ref='DESIGN.md section 3 C04, appendix A.4',
         note='Trusted: clang front end, engine, jansson\'s accessors. Not decided: 64-bit overflow of now +- leeway (a statement about '
              'values); that the claims read are the token\'s own is C19\'s subject.',
@@ -217,7 +217,7 @@ CHECKS = {
         text='jwt_sign and jwt_verify_sig are evaluated over alg 16 x key type 5 x 21 bit counts (all thresholds +-1): a provider '
              'entry is reached only if the RFC 7518 size rule holds and the key kind matches; refusals leave the error flag set. '
              'Inside each provider the EdDSA path must restrict the key type to Ed25519/Ed448 before the crypto primitive (a 256-bit '
-             'EC key passes the size rule).',
+             'EC key passes the size rule). The number compared against the floor has checked provenance (oct: 8 x decoded length; asymmetric: OpenSSL\'s bits parameter, never recomputed or overwritten).',
         design_ref='DESIGN.md section 3 C09',
         note='Trusted: clang front end, engine, API model; that OpenSSL\'s BITS parameter is the key size. bits are only compared with '
              'constants, so the representative set is exhaustive.',
